@@ -180,7 +180,17 @@ def kview(x):
     return x.view()
 
 
+# the names the real objects carry: "A" is a substring of the two others (a lookup must be by the exact name)
+REALNAME = {"A": "A", "B": "BA", "C": "CBA"}
+LOGICAL = {v: k for k, v in REALNAME.items()}
+
+
+def rn(n):
+    return REALNAME.get(n, n)
+
+
 def make(cls, name, pid):
+    name = rn(name)
     L = lib()
     if pid is None:
         return L[cls](name=name)
@@ -200,19 +210,19 @@ def apply_op(ss, op, caller=None):
         if op.get("none"):
             inst.fs = None
             inst.data = None
-        ss.algorithms[op["n"]] = inst
+        ss.algorithms[rn(op["n"])] = inst
     elif k == "run":
-        ss.run_by_name(op["n"])
+        ss.run_by_name(rn(op["n"]))
     elif k == "run_all":
         ss.run_all()
     elif k == "mpe":
-        alg = ss.algorithms.get(op["n"])
+        alg = ss.algorithms.get(rn(op["n"]))
         kw = MPE[type(alg).__name__][op["a"]] if alg is not None else dict(sel_freq=[1.0])
         kw = copy.deepcopy(kw)
         if caller is not None:
             key = tuple(kw["sel_freq"])
             kw["sel_freq"] = caller.setdefault(key, list(key))  # ONE list object per selection and session
-        ss.mpe(op["n"], **kw)
+        ss.mpe(rn(op["n"]), **kw)
     elif k == "pre":
         PRE[op["q"]](ss)
     elif k == "rollback":
@@ -237,7 +247,7 @@ def observe(ss, out, user, caller=None):
             b = [fp(d), float(f)]
         algs.append(
             dict(
-                n=n,
+                n=LOGICAL.get(n, n),
                 c=type(a).__name__,
                 p=None if a.run_params is None else fp(vars(a.run_params)),
                 r=None if a.result is None else fp(vars(a.result)),
